@@ -489,4 +489,26 @@ theorem foldl_note_adopted (now : Nat) (outs : List Send) (g : Ghost) :
     · rfl
     · split <;> rfl
 
+theorem step_clear_nosend (s : Sys) (now : Nat) : (s.step (.clearTimeout now)).2 = [] := rfl
+
+theorem step_probeCheck_nosend (s : Sys) (now : Nat) : (s.step (.probeCheck now)).2 = [] := by
+  simp only [Sys.step]; split <;> rfl
+
+/-- The reconnect branches of a housekeeping pass never emit a driver REG1. -/
+theorem no_drv_in_reconnects (now : Nat) (rcs : List Nat) (s : Sys) (o : Send)
+    (ho : o ∈ (s.run (rcs.map fun i => Ev.reconnect i now)).2) : o.kind ≠ .reg1Drv := by
+  induction rcs generalizing s with
+  | nil => simp [Sys.run] at ho
+  | cons i is ih =>
+    simp only [List.map_cons, Sys.run, List.mem_append] at ho
+    rcases ho with h | h
+    · intro hk
+      rcases step_sends s _ o h with h' | h' | h' | h' | h'
+      · rw [h'.1] at hk; cases hk
+      · exact absurd h'.2.1 (by simp [Ev.IsDriver])
+      · rw [h'.1] at hk; cases hk
+      · rw [h'.1] at hk; cases hk
+      · rw [h'.1] at hk; cases hk
+    · exact ih _ h
+
 end Srtla.Reg
